@@ -3,6 +3,7 @@
 package main
 
 import (
+	"encoding/hex"
 	"bufio"
 	"encoding/json"
 	"flag"
@@ -280,8 +281,74 @@ func (h *harness) exec(line string) string {
 			return "valid"
 		}
 		return "invalid"
+	case "m_cmd2":
+		// m_cmd2 <type> <recipient hex|-> <hubRecipientOk> <fee hex|-> <amount>: the raw strings of a deposit command
+		unhex := func(x string) string {
+			if x == "-" {
+				return ""
+			}
+			b, _ := hex.DecodeString(x)
+			return string(b)
+		}
+		cmd := &command.Command{Type: w[1], Recipient: unhex(w[2]), Fee: unhex(w[4])}
+		amt, _ := new(big.Int).SetString(w[5], 10)
+		err := cmd.ValidateAndComplete(sdk.NewIntFromBigInt(amt))
+		h.monitorCmd2(w, cmd, err == nil)
+		if err == nil {
+			return "valid " + hex.EncodeToString([]byte(cmd.Recipient))
+		}
+		return "invalid"
 	}
 	return "bad-op"
+}
+
+// monitorCmd2: the acceptance predicate of the property, decided independently of the code under test:
+// a valid recipient for the target chain and a non-negative integer fee below the amount less 1 %.
+func (h *harness) monitorCmd2(w []string, cmd *command.Command, accepted bool) {
+	unhex := func(x string) string {
+		if x == "-" {
+			return ""
+		}
+		b, _ := hex.DecodeString(x)
+		return string(b)
+	}
+	rec, feeS := unhex(w[2]), unhex(w[4])
+	recOK := false
+	switch w[1] {
+	case "send_to_ethereum", "send_to_bsc":
+		r := rec
+		if len(r) >= 2 && r[0] == '0' && (r[1] == 'x' || r[1] == 'X') {
+			r = r[2:]
+		}
+		recOK = len(r) == 40
+		for i := 0; i < len(r); i++ {
+			c := r[i]
+			if !(c >= '0' && c <= '9' || c >= 'a' && c <= 'f' || c >= 'A' && c <= 'F') {
+				recOK = false
+			}
+		}
+		if accepted && recOK && !strings.EqualFold(strings.TrimPrefix(strings.TrimPrefix(cmd.Recipient, "0x"), "0X"), r) {
+			h.report("completed-recipient-is-another-address", fmt.Sprintf("%q completed to %q", rec, cmd.Recipient))
+		}
+	case "send_to_hub":
+		recOK = w[3] == "1"
+	}
+	// "integer": Go's own literal syntax (math/big base 0: sign, 0x/0o/0b or leading-0 octal, underscores), which is
+	// how the sdk parses amounts everywhere; within 256 bits
+	fee, feeOK := new(big.Int).SetString(feeS, 0)
+	want := recOK && feeOK
+	if want {
+		amt, _ := new(big.Int).SetString(w[5], 10)
+		lim := new(big.Int).Sub(amt, new(big.Int).Quo(amt, big.NewInt(100)))
+		want = fee.Sign() >= 0 && fee.Cmp(lim) < 0 && fee.BitLen() <= 256
+	}
+	if accepted != want {
+		cls := "command-validation-wrong"
+		if accepted && !recOK {
+			cls = "command-with-invalid-recipient-accepted"
+		}
+		h.report(cls, fmt.Sprintf("type %s recipient %q fee %q amount %s accepted=%v expected=%v", w[1], rec, feeS, w[5], accepted, want))
+	}
 }
 
 // ---------------------------------------------------------------- monitor (property C20)
@@ -313,7 +380,7 @@ func (h *harness) report(class, detail string) {
 // started from (itself a persisted cursor, judged when it was written), so that one inconsistent
 // cursor is reported once and not again for everything that follows it.
 func (h *harness) monitorCommits(log []cursor) {
-	for _, c := range log {
+	for ci, c := range log {
 		if c.LastCheckedMinterBlock < h.base.LastCheckedMinterBlock {
 			h.report("cursor-moved-backwards", fmt.Sprintf("persisted %s from %s", c, h.base))
 			continue
@@ -337,7 +404,8 @@ func (h *harness) monitorCommits(log []cursor) {
 				}
 			}
 			cls := "persisted-cursor-inconsistent"
-			if k >= 2 && c.LastEventNonce > n && c.LastEventNonce < n+uint64(k) {
+			// (the early return ends the scan: only the last commit of a scan can be that one)
+			if k >= 2 && c.LastEventNonce > n && c.LastEventNonce < n+uint64(k) && ci == len(log)-1 {
 				cls = "early-return-inside-a-block-keeps-counted-events"
 			}
 			h.report(cls, fmt.Sprintf("persisted %s but scan start %s + bridge events up to block %d gives nonce %d", c, h.base, c.LastCheckedMinterBlock, n))
@@ -401,6 +469,18 @@ func genHistory(r *rand.Rand, h *harness, nops int, do func(string) string) {
 				// a long outage: well over one scan window (100 blocks) passes, mostly empty blocks
 				for k := 60 + r.Intn(190); k > 0; k-- {
 					height++
+					// the scan pages through the outage 100 blocks at a time: bridge events in the first and last
+					// block of a page (cursor + 1 + 100k, cursor + 100k) sit where the pages meet
+					off := height - h.persisted.LastCheckedMinterBlock
+					if off > 100 && (off%100 == 1 || off%100 == 0) && r.Intn(2) == 0 {
+						s := "send:1:1:1"
+						if r.Intn(3) == 0 {
+							s = "send:1:1:1;ms:1"
+						}
+						emitted += uint64(strings.Count(s, ";") + 1)
+						do(fmt.Sprintf("m_block %d %s", height, s))
+						continue
+					}
 					if r.Intn(25) == 0 {
 						s := txSpec()
 						if h.counts(s) {
@@ -449,10 +529,88 @@ func genHistory(r *rand.Rand, h *harness, nops int, do func(string) string) {
 		default:
 			fees := []string{"0", "1", "-5", "-1", "98", "99", "100", "990", "989", "abc", "", "1000000000000000000000"}
 			amts := []string{"100", "1000", "1", "0", "99", "101", "1000000000000000000000000"}
-			do(fmt.Sprintf("m_cmd %d %d %s %s", r.Intn(8)/7^1, r.Intn(8)/7^1, nz(fees[r.Intn(len(fees))]), amts[r.Intn(len(amts))]))
+			if r.Intn(3) == 0 {
+				do(fmt.Sprintf("m_cmd %d %d %s %s", r.Intn(8)/7^1, r.Intn(8)/7^1, nz(fees[r.Intn(len(fees))]), amts[r.Intn(len(amts))]))
+				continue
+			}
+			// the raw strings a depositor can put into the payload
+			hx := func(x string) string {
+				if x == "" {
+					return "-"
+				}
+				return hex.EncodeToString([]byte(x))
+			}
+			good := "0x" + fmt.Sprintf("%040x", r.Int63())
+			if r.Intn(2) == 0 {
+				b := make([]byte, 20)
+				r.Read(b)
+				good = "0x" + hex.EncodeToString(b)
+			}
+			rec := good
+			switch r.Intn(14) {
+			case 0:
+				rec = good[2:]
+			case 1:
+				rec = "0X" + strings.ToUpper(good[2:])
+			case 2:
+				rec = good[:10] + "O" + good[11:]
+			case 3:
+				rec = good[:41] + " "
+			case 4:
+				rec = good[:20] + "g" + good[21:]
+			case 5:
+				rec = good + "0"
+			case 6:
+				rec = good[:41]
+			case 7:
+				rec = ""
+			case 8:
+				rec = good[:30] + "\xc3\xa9" + good[32:] // two bytes of one non-ASCII character
+			case 9:
+				rec = "0x" + good
+			case 10:
+				rec = "Mx" + good[2:]
+			case 11:
+				rec = strings.ToUpper(good[:22]) + good[22:]
+				rec = "0x" + rec[2:]
+			}
+			typ := []string{"send_to_ethereum", "send_to_ethereum", "send_to_bsc", "send_to_hub", "send_to_minter", "", "SEND_TO_ETHEREUM"}[r.Intn(7)]
+			rok := 0
+			if typ == "send_to_hub" {
+				acc := sdk.AccAddress(make([]byte, 20))
+				acc[r.Intn(20)] = byte(r.Intn(256))
+				rec = acc.String()
+				rok = 1
+				switch r.Intn(6) {
+				case 0:
+					b := []byte(rec)
+					i := len(b) - 1 - r.Intn(6)
+					if b[i] == 'q' {
+						b[i] = 'p'
+					} else {
+						b[i] = 'q'
+					}
+					rec, rok = string(b), 0
+				case 1:
+					rec, rok = good, 0
+				case 2:
+					rec, rok = "", 0
+				}
+			}
+			fees2 := []string{"0", "1", "-5", "-1", "98", "99", "100", "990", "989", "abc", "", "+5", "007", "1_0", " 5", "5 ", "0x10", "1e3", "٣", "--1", "-", "+", "9.5",
+				"115792089237316195423570985008687907853269984665640564039457584007913129639935", "115792089237316195423570985008687907853269984665640564039457584007913129639936"}
+			amts2 := append(amts, "115792089237316195423570985008687907853269984665640564039457584007913129639935", "200")
+			do(fmt.Sprintf("m_cmd2 %s %s %d %s %s", nzt(typ), hx(rec), rok, hx(fees2[r.Intn(len(fees2))]), amts2[r.Intn(len(amts2))]))
 		}
 	}
 	do("m_resync 0")
+}
+
+func nzt(s string) string {
+	if s == "" {
+		return "none"
+	}
+	return s
 }
 
 func nz(s string) string {
